@@ -404,6 +404,10 @@ fn compare_files(co: &mut CaseOut, a: &Files, b: &Files, what: &str, exact: bool
         if canon::exact_eq(x, y) {
             continue;
         }
+        // a layout change of the sources: comments are not declarations (second opinion without them)
+        if !exact && canon::decls_eq(x, y) {
+            continue;
+        }
         if canon::canon_eq(x, y) {
             if exact {
                 co.violate(
